@@ -129,18 +129,6 @@ def interp (p : Params) (func : List Row → List Row) : Interp
   | 6, [.pieces [pr, cur, nx]] => .frame (overlapChunk func p.before p.after pr cur nx)
   | _, _ => .err
 
-/-- canonical text of the callable behind a function code with its literal arguments
-    (used by the driver to compare with the real task tuples) -/
-def fnSig (p : Params) : Nat → String
-  | 0 => s!"tail({p.before})"
-  | 1 => s!"head({p.after})"
-  | 2 => s!"combined_parts(None,_,None,{p.before},{p.after})"
-  | 3 => s!"combined_parts(None,_,next,{p.before},{p.after})"
-  | 4 => s!"combined_parts(prev,_,None,{p.before},{p.after})"
-  | 5 => s!"combined_parts(prev,_,next,{p.before},{p.after})"
-  | 6 => s!"overlap_chunk({p.before},{p.after})"
-  | _ => "?"
-
 def inputs (parts : Nat → List Row) : Key → Option V
   | .dep i => some (.frame (parts i))
   | _ => none
